@@ -1,0 +1,25 @@
+//go:build verif
+
+package gateway
+
+// Machine-checked contracts (comment-only; compiled only with -tags verif).
+//@ load sdk/go/hydraidego/hydraidepbgo
+
+// Business lock RPC: whatever TTL the client sends, the lock engine is called with an
+// effective TTL of at least one second, and with a wait context that cannot be cancelled
+// by the client (ghost variables are set by the interface contract of lock.Lock.Lock).
+//@ func (Gateway).Lock(g, ctx, in) (resp, err)
+//@   property C14
+//@   requires[request] in != nil
+//@   modifies *
+//@   ensures[ttl_floor] ghost("lock_calls") > old(ghost("lock_calls")) ==> ghost("lock_ttl") >= 1000000000
+//@   ensures[wait_not_cancellable] ghost("lock_calls") > old(ghost("lock_calls")) ==> ghost("lock_ctx_cancellable") == 0
+//@   ensures[empty_key_rejected] len(old(in.Key)) == 0 ==> err != nil && ghost("lock_calls") == old(ghost("lock_calls"))
+
+// Assumed accessor contracts (interfaces of other packages): pure getters returning a live object.
+//@ trusted func (github.com/hydraide/hydraide/app/core/zeus.Zeus).GetHydra(z) (h)
+//@   ensures h != nil
+//@ trusted func (github.com/hydraide/hydraide/app/core/hydra.Hydra).GetLocker(h) (l)
+//@   ensures l != nil
+//@ trusted func (github.com/hydraide/hydraide/app/core/zeus.Zeus).GetSafeops(z) (s)
+//@   ensures s != nil
